@@ -286,4 +286,166 @@ theorem face_face_shape (nf w : Nat) (ef ff : Table) (h : makeFaceFace nf w ef =
   rw [Option.some.inj hrow']
   exact hl
 
+/-! ## the derived tables together -/
+
+/-- **internal consistency, in terms of node pairs.**  Let `en` be any edge table without
+repeated edges that contains every consecutive node pair of the faces (a valid supplied
+`edge_node` table, the derived one, or any renumbering of it), on a mesh that is manifold
+(every undirected node pair is a side of at most two faces, no face uses one twice —
+`Manifold`, decidable).  Then all three derivations succeed, and
+* column `c` of face `i` in face-edge is an edge whose nodes are the `c`-th consecutive pair of `i`;
+* edge `k` lists face `i` iff the node pair of `k` is a consecutive pair of `i`, and lists at most two faces;
+* face `i` lists face `j` iff `i ≠ j` and they have a common undirected node pair;
+  this relation is symmetric. -/
+theorem derived_tables_consistent (w : Nat) (en : List Pair) (faces : List (List Int))
+    (hnd : (en.map normPair).Nodup)
+    (hcover : ∀ f ∈ faces, ∀ p ∈ facePairs f, ∃ e ∈ en, normPair e = normPair p)
+    (hw : ∀ f ∈ faces, f.length ≤ w)
+    (hm : Manifold faces) :
+    ∃ fe ef ff, makeFaceEdge w en faces = .ok fe ∧
+      makeEdgeFace en.length (fe.map compress) = .ok ef ∧
+      makeFaceFace faces.length w ef = .ok ff ∧
+      (∀ i (hi : i < faces.length) c (hc : c < (facePairs faces[i]).length),
+          ∃ k : Nat, (fe[i]?.bind (·[c]?)) = some (some (k : Int)) ∧ ∃ hk : k < en.length,
+            normPair en[k] = normPair (facePairs faces[i])[c]) ∧
+      (∀ k (hk : k < en.length) i (hi : i < faces.length),
+          (i : Int) ∈ rowOf ef k ↔ ∃ p ∈ facePairs faces[i], normPair p = normPair en[k]) ∧
+      (∀ k, k < en.length → (rowOf ef k).length ≤ 2) ∧
+      (∀ i (hi : i < faces.length) j (hj : j < faces.length),
+          (j : Int) ∈ rowOf ff i ↔
+            i ≠ j ∧ ∃ p ∈ facePairs faces[i], ∃ q ∈ facePairs faces[j], normPair p = normPair q) ∧
+      (∀ i (_ : i < faces.length) j (_ : j < faces.length),
+          (j : Int) ∈ rowOf ff i ↔ (i : Int) ∈ rowOf ff j) := by
+  obtain ⟨fe, ef, ff, hfe, hef, hff⟩ := derived_tables_exist hnd hcover hw hm
+  obtain ⟨hefs, hffs⟩ := derived_chain_spec hnd hcover hw hfe hef hff
+  refine ⟨fe, ef, ff, hfe, hef, hff, ?_, hefs, ?_, hffs, ?_⟩
+  · intro i hi c hc
+    obtain ⟨fe', hfe', _, hspec⟩ := makeFaceEdge_spec w en faces hcover hw
+    rw [hfe] at hfe'
+    have := Except.ok.inj hfe'
+    subst this
+    obtain ⟨row, hrow, _, hin, _⟩ := hspec i hi
+    obtain ⟨k, hk, hlt, hn⟩ := hin c hc
+    exact ⟨k, by simp [hrow, hk], hlt, hn⟩
+  · intro k hk
+    obtain ⟨_, hman, _, hspec⟩ := makeEdgeFace_ok hef
+    obtain ⟨row, hrow, _, hc⟩ := hspec k hk
+    simp only [rowOf, hrow, hc, List.length_map]
+    exact hman k hk
+  · intro i hi j hj
+    exact face_face_symm _ _ _ _ hff i j hi hj
+
+/-- the same for the edges the code derives itself, **whatever numbering it gives them** -/
+theorem derived_topology (w : Nat) (faces : List (List Int)) (numbering : Option (List Pair))
+    (hw : ∀ f ∈ faces, f.length ≤ w) (hm : Manifold faces) :
+    let en := TopoIn.derivedEdges numbering faces
+    ∃ fe ef ff, makeFaceEdge w en faces = .ok fe ∧
+      makeEdgeFace en.length (fe.map compress) = .ok ef ∧
+      makeFaceFace faces.length w ef = .ok ff ∧
+      (∀ k (hk : k < en.length) i (hi : i < faces.length),
+          (i : Int) ∈ rowOf ef k ↔ ∃ p ∈ facePairs faces[i], normPair p = normPair en[k]) ∧
+      (∀ i (hi : i < faces.length) j (hj : j < faces.length),
+          (j : Int) ∈ rowOf ff i ↔
+            i ≠ j ∧ ∃ p ∈ facePairs faces[i], ∃ q ∈ facePairs faces[j], normPair p = normPair q) := by
+  intro en
+  obtain ⟨hnd, hmem, _⟩ := derivedEdges_spec faces numbering
+  have hcover : ∀ f ∈ faces, ∀ p ∈ facePairs f, ∃ e ∈ en, normPair e = normPair p := by
+    intro f hf p hp
+    have := (hmem (normPair p)).mpr ⟨f, hf, p, hp, rfl⟩
+    obtain ⟨e, he, hn⟩ := List.mem_map.mp this
+    exact ⟨e, he, hn⟩
+  obtain ⟨fe, ef, ff, hfe, hef, hff, _, hefs, _, hffs, _⟩ :=
+    derived_tables_consistent w en faces hnd hcover hw hm
+  exact ⟨fe, ef, ff, hfe, hef, hff, hefs, hffs⟩
+
+/-- and these are what the `*_array` properties return when the dataset supplies none of the
+optional tables (edge dimension declared, sized or not) -/
+theorem topology_all_derived (t : TopoIn) (faces : List (List Int))
+    (hfaces : t.faces = .ok faces) (hedge : t.hasEdgeDim = true) (hfv : t.fillValueErr = none)
+    (h1 : t.edgeNode = none) (h2 : t.faceEdge = none) (h3 : t.edgeFace = none) (h4 : t.faceFace = none)
+    (hsize : t.edgeDimSize = none ∨ t.edgeDimSize = some (TopoIn.derivedEdges t.numbering faces).length) :
+    let en := TopoIn.derivedEdges t.numbering faces
+    t.edgeNodeArray = .ok (en.map pairRow) ∧
+    t.faceEdgeArray = makeFaceEdge t.width en faces ∧
+    (∀ fe, makeFaceEdge t.width en faces = .ok fe →
+      t.edgeFaceArray = makeEdgeFace en.length (fe.map compress) ∧
+      ∀ ef, makeEdgeFace en.length (fe.map compress) = .ok ef →
+        t.faceFaceArray = makeFaceFace t.nfaces t.width ef) := by
+  intro en
+  have hen : t.edgeNodeArray = .ok (en.map pairRow) := by
+    simp [TopoIn.edgeNodeArray, hedge, h1, hfaces, en]
+  have hpairs : pairsOfTable (en.map pairRow) = some en := pairsOfTable_pairRow en
+  have hfe : t.faceEdgeArray = makeFaceEdge t.width en faces := by
+    simp [TopoIn.faceEdgeArray, h2, hfv, hen, hpairs, hfaces]
+  have hcount : t.edgeCount = .ok en.length := by
+    rcases hsize with h | h
+    · simp [TopoIn.edgeCount, hedge, h, hen, Except.map]
+    · simp [TopoIn.edgeCount, hedge, h, en]
+  refine ⟨hen, hfe, ?_⟩
+  intro fe hfe'
+  have hef : t.edgeFaceArray = makeEdgeFace en.length (fe.map compress) := by
+    simp [TopoIn.edgeFaceArray, h3, hfv, hcount, hfe, hfe']
+  refine ⟨hef, ?_⟩
+  intro ef hef'
+  simp [TopoIn.faceFaceArray, h4, hfv, hef, hef']
+
+/-! ## the recorded deviations do violate the property (concrete witnesses) -/
+
+/-- Looking coordinate variables up in `data_vars` only (the unchanged code) does not find
+node / face coordinate variables that are held as xarray coordinates (so `node_x` raises
+KeyError and `face_x` is `None`), while the property-level lookup finds them. -/
+theorem quirk_coords_in_data_vars_violates :
+    witnessCoords.coordVar? { coordsInDataVars := true } "nx" = none ∧
+    (witnessCoords.coordVar? {} "nx").isSome ∧
+    witnessCoords.coordVar? { coordsInDataVars := true } "fx" = none ∧
+    (witnessCoords.coordVar? {} "fx").isSome := by
+  decide
+
+/-- Guessing `two_dimension` as the first dimension of size two (the unchanged code) makes a
+valid supplied edge-node table fail its validity test on a two-face mesh whose two-dimension
+is not called `Two`; deriving it from the edge tables does not. -/
+theorem quirk_two_dim_guess_violates :
+    (witnessTwoDim.validEdgeVar? { twoDimGuess := true } "edge_node_connectivity").isNone ∧
+    (witnessTwoDim.validEdgeVar? {} "edge_node_connectivity").isSome := by
+  decide
+
+/-- What the theorems above do *not* give, and the unchanged code does not do either: when a
+dataset supplies `face_edge` but no `edge_node` table, the derived edge-node table is numbered
+without looking at the supplied face-edge table, so the two need not agree.  Witness: one
+triangle whose supplied face-edge row is `[2, 0, 1]`; the first side of the face is the node
+pair (0, 1), but edge 2 of the derived edge-node table is (0, 2).  (`face_edge_spec` needs the
+face-edge table to be derived from the edge table in use; `supplied_used` returns the supplied
+one.)  Recorded as finding `ugrid-derived-edge-node-ignores-supplied-face-edge-numbering`. -/
+theorem supplied_face_edge_numbering_not_followed :
+    let t : TopoIn :=
+      { faceNode := .ok [[some 0, some 1, some 2]], nfaces := 1, width := 3, hasEdgeDim := true,
+        edgeDimSize := some 3, edgeNode := none, faceEdge := some (.ok [[some 2, some 0, some 1]]),
+        edgeFace := none, faceFace := none }
+    t.faceEdgeArray = .ok [[some 2, some 0, some 1]] ∧
+    t.edgeNodeArray = .ok [[some 0, some 1], [some 1, some 2], [some 0, some 2]] := by
+  decide
+
+/-! ## the hypotheses are satisfiable (non-vacuity) -/
+
+/-- two triangles sharing an edge form a manifold mesh; the derived tables exist -/
+example : Manifold [[0, 1, 2], [1, 3, 2]] := by decide
+
+example : ∃ fe ef ff, makeFaceEdge 3 (makeEdgeNode [[0, 1, 2], [1, 3, 2]]) [[0, 1, 2], [1, 3, 2]] = .ok fe ∧
+    makeEdgeFace 5 (fe.map compress) = .ok ef ∧ makeFaceFace 2 3 ef = .ok ff ∧
+    ff = [[some 1, none, none], [some 0, none, none]] := by
+  refine ⟨_, _, _, rfl, rfl, rfl, ?_⟩
+  decide
+
+/-- an admissible encoding: one-based, integer fill value 999, transposed -/
+example : ({ base := 1, spelling := .int, fill := .attr 999, transposed := true } : Enc).Admissible 4
+    [[0, 1, 2], [1, 3, 2, 4]] := by
+  refine ⟨Or.inr rfl, by simp, by decide, by decide⟩
+
+example : toIndexArray (encode { base := 1, spelling := .str, fill := .nan, transposed := true } "f" "m" 4
+    [[0, 1, 2], [1, 3, 2, 4]]) "f" = .ok [[some 0, some 1, some 2, none], [some 1, some 3, some 2, some 4]] := by
+  decide
+
+/-- a non-manifold mesh (three triangles on one edge) is refused -/
+example : ¬ Manifold [[0, 1, 2], [1, 0, 3], [0, 1, 4]] := by decide
+
 end Ems.C10
